@@ -1,12 +1,1083 @@
-//! C15 - not built yet.
-use crate::run::Ctx;
-use serde_json::Value;
+//! C15 - the bundled FsTzdbProvider reports what the TZif data say, whatever the history.
+//!
+//! Oracle: `tzif` (own TZif reader + POSIX-TZ footer evaluator, brute-force wall -> instants).
+//! Code under test: `temporal_rs::tzdb::FsTzdbProvider` through the `TimeZoneProvider` trait.
+//! Sub-checks: `offset` (instant -> offset), `wall` (local date-time -> set of instants, directly and
+//! through the core with a recording wrapper), `ident` (check_identifier == Zone/Link names of
+//! tzdata.zi, ASCII case-insensitive), `history` (one provider over a sequence == fresh provider per query).
+//! `VERIF_C15_PYCHECK=1` additionally cross-checks the oracle against CPython `zoneinfo` on every
+//! whole-second point of the run (development aid, reported as a note, never part of the verdict).
 
-pub fn run(_ctx: &mut Ctx) {
-    eprintln!("property C15 has no check yet");
-    std::process::exit(2);
+pub mod model;
+pub mod tzif;
+
+use crate::chk;
+use crate::refm::civil::{from_days, to_days};
+use crate::refm::tz::S;
+use crate::run::*;
+use proptest::prelude::*;
+use serde::{Deserialize, Serialize};
+use serde_json::{json, Value};
+use std::cell::RefCell;
+use std::collections::{BTreeMap, BTreeSet};
+use std::sync::{Arc, OnceLock};
+use temporal_rs::iso::{IsoDate, IsoDateTime, IsoTime};
+use temporal_rs::options::{ArithmeticOverflow, Disambiguation};
+use temporal_rs::provider::{TimeZoneOffset, TimeZoneProvider, TransitionDirection};
+use temporal_rs::time::EpochNanoseconds;
+use temporal_rs::tzdb::FsTzdbProvider;
+use temporal_rs::{PlainDateTime, TemporalResult, TimeZone};
+use tzif::Oracle;
+
+pub const ZONEDIR: &str = "/usr/share/zoneinfo";
+
+/// first second of year 1 and last second of year 9999 (the property's instant domain)
+pub fn t_min() -> i64 {
+    to_days(1, 1, 1) * 86400
+}
+pub fn t_max() -> i64 {
+    to_days(9999, 12, 31) * 86400 + 86399
 }
 
-pub fn replay(_ctx: &mut Ctx, _sub: &str, _case: &Value) -> bool {
-    false
+// ---------------------------------------------------------------------------------------------
+// data: names and oracles (read once)
+
+pub struct Db {
+    pub version: String,
+    /// Zone names then Link names of tzdata.zi
+    pub names: Vec<String>,
+    pub lower: BTreeSet<String>,
+    pub oracles: BTreeMap<String, Arc<Oracle>>,
+    pub problems: Vec<String>,
+}
+
+pub fn db() -> &'static Db {
+    static DB: OnceLock<Db> = OnceLock::new();
+    DB.get_or_init(|| {
+        let (version, zones, links) = tzif::tzdata_names(&format!("{ZONEDIR}/tzdata.zi")).expect("tzdata.zi must be readable");
+        let mut names: Vec<String> = zones;
+        names.extend(links.into_iter().map(|l| l.0));
+        let mut problems = vec![];
+        let mut oracles = BTreeMap::new();
+        for n in &names {
+            match Oracle::read(ZONEDIR, n) {
+                Ok(o) => {
+                    for r in &o.remarks {
+                        problems.push(format!("{n}: {r}"));
+                    }
+                    oracles.insert(n.clone(), Arc::new(o));
+                }
+                Err(e) => problems.push(e),
+            }
+        }
+        let lower = names.iter().map(|n| n.to_ascii_lowercase()).collect();
+        Db { version, names, lower, oracles, problems }
+    })
+}
+
+pub fn oracle(name: &str) -> Option<Arc<Oracle>> {
+    db().oracles.get(name).cloned()
+}
+
+// ---------------------------------------------------------------------------------------------
+// calling the code under test
+
+/// What a trait call produced, in comparable form.
+#[derive(Clone, Debug, PartialEq, Eq, Serialize, Deserialize)]
+pub enum Ans<T> {
+    Ok(T),
+    /// error kind name
+    Err(String),
+    /// panic location (file:line relative to the crate)
+    Panic(String),
+}
+
+fn panic_loc(p: &str) -> String {
+    // "panic@src/tzdb.rs:219: message" -> "src/tzdb.rs:219"
+    // and "/any/where/src/tzdb.rs:219" -> "src/tzdb.rs:219" (the crate may be built from a scratch tree)
+    let loc = p.split(": ").next().unwrap_or("panic@?").trim_start_matches("panic@");
+    match loc.rfind("/src/") {
+        Some(i) => loc[i + 1..].to_string(),
+        None => loc.to_string(),
+    }
+}
+
+fn lift<T, U>(r: Result<TemporalResult<T>, String>, f: impl FnOnce(T) -> U) -> Ans<U> {
+    match r {
+        Ok(Ok(v)) => Ans::Ok(f(v)),
+        Ok(Err(e)) => Ans::Err(crate::conv::kind_name(e.kind()).to_string()),
+        Err(p) => Ans::Panic(panic_loc(&p)),
+    }
+}
+
+pub fn ns_of(s: i64, sub: i32) -> i128 {
+    s as i128 * S + sub as i128
+}
+
+/// (offset seconds, transition_epoch) as returned by the provider
+pub fn impl_offset(p: &impl TimeZoneProvider, zone: &str, t_ns: i128) -> Ans<(i64, Option<i64>)> {
+    lift(guard(|| p.get_named_tz_offset_nanoseconds(zone, t_ns)), |o: TimeZoneOffset| (o.offset, o.transition_epoch))
+}
+
+/// IsoDateTime for a point of the local line, through public API only: `IsoDate`/`IsoDateTime` are
+/// `#[non_exhaustive]` (no struct literal outside the crate) but implement `Default` and have public
+/// fields; `IsoTime::new` and `IsoDateTime::new` are public validating constructors.
+pub fn make_iso(wall_s: i64, sub: i32) -> TemporalResult<IsoDateTime> {
+    let day = wall_s.div_euclid(86400);
+    let sod = wall_s.rem_euclid(86400);
+    let (y, m, d) = from_days(day);
+    let mut date = IsoDate::default();
+    date.year = y as i32;
+    date.month = m;
+    date.day = d;
+    let time = IsoTime::new(
+        (sod / 3600) as u8,
+        (sod / 60 % 60) as u8,
+        (sod % 60) as u8,
+        (sub / 1_000_000) as u16,
+        (sub / 1000 % 1000) as u16,
+        (sub % 1000) as u16,
+        ArithmeticOverflow::Reject,
+    )?;
+    IsoDateTime::new(date, time)
+}
+
+pub fn impl_instants(p: &impl TimeZoneProvider, zone: &str, wall_s: i64, sub: i32) -> Ans<Vec<i128>> {
+    let iso = match make_iso(wall_s, sub) {
+        Ok(i) => i,
+        Err(e) => return Ans::Err(format!("make_iso:{}", crate::conv::kind_name(e.kind()))),
+    };
+    lift(guard(|| p.get_named_tz_epoch_nanoseconds(zone, iso)), |v: Vec<EpochNanoseconds>| {
+        let mut v: Vec<i128> = v.into_iter().map(|e| e.as_i128()).collect();
+        v.sort();
+        v.dedup();
+        v
+    })
+}
+
+thread_local! {
+    /// one provider per (worker thread, zone): reading a zone file through the crate costs ~1 ms
+    /// (unbuffered byte reads), so `offset` and `wall` reuse the provider while the zone stays the
+    /// same. That earlier queries do not matter is what the `history` sub-check decides.
+    static PROVIDER: RefCell<Option<(String, FsTzdbProvider)>> = const { RefCell::new(None) };
+}
+pub fn with_provider<T>(zone: &str, f: impl FnOnce(&FsTzdbProvider) -> T) -> T {
+    PROVIDER.with(|cell| {
+        let mut slot = cell.borrow_mut();
+        if slot.as_ref().map(|x| x.0.as_str()) != Some(zone) {
+            *slot = Some((zone.to_string(), FsTzdbProvider::default()));
+        }
+        f(&slot.as_ref().unwrap().1)
+    })
+}
+
+/// Delegating provider that records what the inner provider was asked and what it answered.
+pub struct RecProvider {
+    pub inner: FsTzdbProvider,
+    pub log: RefCell<Vec<(String, IsoDateTime, Result<Vec<i128>, String>)>>,
+}
+impl TimeZoneProvider for RecProvider {
+    fn check_identifier(&self, identifier: &str) -> bool {
+        self.inner.check_identifier(identifier)
+    }
+    fn get_named_tz_epoch_nanoseconds(&self, identifier: &str, local: IsoDateTime) -> TemporalResult<Vec<EpochNanoseconds>> {
+        let r = self.inner.get_named_tz_epoch_nanoseconds(identifier, local);
+        let rec = match &r {
+            Ok(v) => Ok(v.iter().map(|e| e.as_i128()).collect()),
+            Err(e) => Err(crate::conv::kind_name(e.kind()).to_string()),
+        };
+        self.log.borrow_mut().push((identifier.to_string(), local, rec));
+        r
+    }
+    fn get_named_tz_offset_nanoseconds(&self, identifier: &str, epoch_nanoseconds: i128) -> TemporalResult<TimeZoneOffset> {
+        self.inner.get_named_tz_offset_nanoseconds(identifier, epoch_nanoseconds)
+    }
+    fn get_named_tz_transition(&self, identifier: &str, epoch_nanoseconds: i128, direction: TransitionDirection) -> TemporalResult<Option<EpochNanoseconds>> {
+        self.inner.get_named_tz_transition(identifier, epoch_nanoseconds, direction)
+    }
+}
+
+/// wall -> instants observed through the core: `PlainDateTime::to_zoned_date_time_with_provider`
+/// with `Disambiguation::Reject` makes exactly one `get_named_tz_epoch_nanoseconds` call with the
+/// date-time unchanged and never probes further. Returns (raw answer, forwarded unchanged?, calls).
+pub fn impl_instants_via_core(zone: &str, wall_s: i64, sub: i32) -> (Ans<Vec<i128>>, bool, usize) {
+    let day = wall_s.div_euclid(86400);
+    let sod = wall_s.rem_euclid(86400);
+    let (y, m, d) = from_days(day);
+    let pdt = match PlainDateTime::try_new(
+        y as i32,
+        m,
+        d,
+        (sod / 3600) as u8,
+        (sod / 60 % 60) as u8,
+        (sod % 60) as u8,
+        (sub / 1_000_000) as u16,
+        (sub / 1000 % 1000) as u16,
+        (sub % 1000) as u16,
+        crate::conv::iso(),
+    ) {
+        Ok(p) => p,
+        Err(e) => return (Ans::Err(format!("try_new:{}", crate::conv::kind_name(e.kind()))), false, 0),
+    };
+    let rec = RecProvider { inner: FsTzdbProvider::default(), log: RefCell::new(vec![]) };
+    let tz = TimeZone::IanaIdentifier(zone.to_string());
+    let r = guard(|| pdt.to_zoned_date_time_with_provider(&tz, Disambiguation::Reject, &rec));
+    let log = rec.log.borrow();
+    let want = make_iso(wall_s, sub).ok();
+    let forwarded = log.len() == 1 && log[0].0 == zone && Some(log[0].1) == want;
+    let ans = match (&r, log.first()) {
+        (Err(p), _) => Ans::Panic(panic_loc(p)),
+        (_, Some((_, _, Ok(v)))) => {
+            let mut v = v.clone();
+            v.sort();
+            v.dedup();
+            Ans::Ok(v)
+        }
+        (_, Some((_, _, Err(k)))) => Ans::Err(k.clone()),
+        (Ok(Err(e)), None) => Ans::Err(format!("core:{}", crate::conv::kind_name(e.kind()))),
+        (Ok(Ok(_)), None) => Ans::Err("core:no-provider-call".into()),
+    };
+    (ans, forwarded, log.len())
+}
+
+// ---------------------------------------------------------------------------------------------
+// classification helpers (non-triviality rule)
+
+/// is the transition nearest to `t_s` (listed, or rule-based in the footer region) one of the
+/// shapes the heuristics of the code under test do not expect: an offset change between two non-DST
+/// types, or "negative DST" (the DST type has the smaller offset)?
+fn nearest_transition_is_unusual(o: &Oracle, t_s: i64) -> bool {
+    let f = &o.file;
+    if f.times.last().is_some_and(|l| t_s > *l) || f.times.is_empty() {
+        return o.posix.as_ref().and_then(|p| p.dst.as_ref().map(|d| d.off < p.std_off)).unwrap_or(false);
+    }
+    let i = f.times.partition_point(|x| *x <= t_s); // first transition after t
+    let cand = [i.checked_sub(1), if i < f.times.len() { Some(i) } else { None }];
+    let Some(k) = cand.iter().flatten().copied().min_by_key(|k| (f.times[*k] - t_s).abs()) else { return false };
+    if k == 0 {
+        return false; // LMT -> first standard time is the ordinary first transition
+    }
+    let (before, after) = (&f.types[f.idx[k - 1]], &f.types[f.idx[k]]);
+    if before.utoff == after.utoff {
+        return false;
+    }
+    (!before.isdst && !after.isdst) || (after.isdst && !before.isdst && after.utoff < before.utoff) || (before.isdst && !after.isdst && after.utoff > before.utoff)
+}
+
+/// distance in seconds from `t` to the nearest transition (listed or rule-based) of the deciding table
+fn near_transition(o: &Oracle, t_s: i64) -> Option<i64> {
+    let y = tzif::year_of_second(t_s);
+    let w = o.window(y);
+    w.trans.iter().map(|e| (e.0 - t_s).abs()).min()
+}
+
+fn classes_for_instant(out: Outcome, o: &Oracle, t_s: i64) -> Outcome {
+    let mut out = out;
+    let mut nt = false;
+    match (o.file.times.first(), o.file.times.last()) {
+        (Some(f), _) if t_s < *f => {
+            out = out.class("before-first-transition");
+            nt = true;
+        }
+        (_, Some(l)) if t_s >= *l => {
+            out = out.class("after-last-listed");
+            nt = true;
+        }
+        (None, None) => out = out.class("zone-without-transitions"),
+        _ => out = out.class("inside-table"),
+    }
+    if let Some(d) = near_transition(o, t_s) {
+        if d <= 3600 {
+            out = out.class("within-1h-of-transition");
+            nt = true;
+        }
+        if d <= 1 {
+            out = out.class("at-transition-second+-1");
+        }
+    }
+    if t_s < 0 {
+        out = out.class("negative-epoch");
+        nt = true;
+    }
+    if t_s >= 2_145_916_800 {
+        out = out.class("year>=2038");
+    }
+    if nearest_transition_is_unusual(o, t_s) {
+        out = out.class("nearest-transition-negative-dst-or-nondst-change");
+        nt = true;
+    }
+    out.nontrivial(nt)
+}
+
+// ---------------------------------------------------------------------------------------------
+// sub-check: offset
+
+#[derive(Serialize, Deserialize, Debug, Clone)]
+pub struct OffsetCase {
+    pub zone: String,
+    /// epoch second (floor) and nanoseconds within it: t = s * 1e9 + ns
+    pub s: i64,
+    pub ns: i32,
+}
+pub struct OffsetSub;
+impl SubCheck for OffsetSub {
+    type Case = OffsetCase;
+    fn name(&self) -> &'static str {
+        "offset"
+    }
+    fn eval(&self, c: &OffsetCase) -> Outcome {
+        let Some(o) = oracle(&c.zone) else {
+            return Outcome::pass().fail("C15/offset/oracle-cannot-read-zone", "readable", c.zone.clone());
+        };
+        let t = ns_of(c.s, c.ns);
+        let mut out = classes_for_instant(Outcome::pass(), &o, c.s);
+        if c.ns != 0 {
+            out = out.class("sub-second");
+        }
+        let want = o.offset_at(t);
+        let got = with_provider(&c.zone, |p| impl_offset(p, &c.zone, t));
+        let ok = matches!(&got, Ans::Ok((off, _)) if *off == want);
+        if !ok {
+            let got_off = match &got {
+                Ans::Ok((off, _)) => Ans::Ok(*off),
+                Ans::Err(e) => Ans::Err(e.clone()),
+                Ans::Panic(p) => Ans::Panic(p.clone()),
+            };
+            let sig = model::sign_offset(&o, t, &got_off);
+            out = out.fail(sig, format!("offset {want}"), format!("{got_off:?}"));
+        }
+        out
+    }
+}
+
+// ---------------------------------------------------------------------------------------------
+// sub-check: wall
+
+#[derive(Serialize, Deserialize, Debug, Clone)]
+pub struct WallCase {
+    pub zone: String,
+    /// second on the local line (as if UTC) and nanoseconds within it
+    pub s: i64,
+    pub ns: i32,
+    /// observe through PlainDateTime::to_zoned_date_time_with_provider + recording wrapper
+    pub via_core: bool,
+}
+pub struct WallSub;
+impl SubCheck for WallSub {
+    type Case = WallCase;
+    fn name(&self) -> &'static str {
+        "wall"
+    }
+    fn eval(&self, c: &WallCase) -> Outcome {
+        let Some(o) = oracle(&c.zone) else {
+            return Outcome::pass().fail("C15/wall/oracle-cannot-read-zone", "readable", c.zone.clone());
+        };
+        let w = ns_of(c.s, c.ns);
+        let want = o.instants(w);
+        let mut out = classes_for_instant(Outcome::pass(), &o, c.s);
+        out = match want.len() {
+            0 => out.class("wall-in-gap").nontrivial(true),
+            1 => out.class("wall-unique"),
+            _ => out.class("wall-in-overlap").nontrivial(true),
+        };
+        if c.ns != 0 {
+            out = out.class("sub-second");
+        }
+        let got = if c.via_core {
+            out = out.class("via-core");
+            let (ans, forwarded, calls) = impl_instants_via_core(&c.zone, c.s, c.ns);
+            if !matches!(ans, Ans::Panic(_)) {
+                chk!(out, forwarded, "C15/wall/core-did-not-forward-the-date-time-unchanged", "1 call, same zone, same date-time", calls);
+            }
+            ans
+        } else {
+            with_provider(&c.zone, |p| impl_instants(p, &c.zone, c.s, c.ns))
+        };
+        if got != Ans::Ok(want.clone()) && !out.failed() {
+            let sig = model::sign_wall(&o, c.s, c.ns, &got);
+            out = out.fail(sig, format!("{want:?}"), format!("{got:?}"));
+        }
+        out
+    }
+}
+
+// ---------------------------------------------------------------------------------------------
+// sub-check: identifiers
+
+#[derive(Serialize, Deserialize, Debug, Clone)]
+pub struct IdentCase {
+    pub s: String,
+}
+pub struct IdentSub;
+impl SubCheck for IdentSub {
+    type Case = IdentCase;
+    fn name(&self) -> &'static str {
+        "ident"
+    }
+    fn eval(&self, c: &IdentCase) -> Outcome {
+        let d = db();
+        let lower = c.s.to_ascii_lowercase();
+        let want = d.lower.contains(&lower);
+        let mut out = Outcome::pass().class(if want { "name" } else { "not-a-name" });
+        let exact = d.names.iter().any(|n| *n == c.s);
+        out = out.nontrivial(!exact);
+        if want && !exact {
+            out = out.class("case-variant");
+        }
+        if !c.s.is_ascii() {
+            out = out.class("non-ascii");
+        }
+        let got = guard(|| FsTzdbProvider::default().check_identifier(&c.s));
+        if lower == "factory" {
+            // `Factory` is a Zone line of tzdata.zi (source file `factory`) but a placeholder, not a
+            // time zone (ECMA-402 implementations leave it out): whether it is an "IANA name" in the
+            // sense of the statement is doubtful -> executed, not judged.
+            out.unjudged = true;
+            return out.class("unjudged-Factory");
+        }
+        match got {
+            Ok(b) => chk!(out, b == want, if want { "C15/ident/rejected-a-name" } else { "C15/ident/accepted-a-non-name" }, want, b),
+            Err(p) => out = out.fail(format!("C15/ident/panic@{}", panic_loc(&p)), want.to_string(), p),
+        }
+        out
+    }
+}
+
+// ---------------------------------------------------------------------------------------------
+// sub-check: history independence
+
+#[derive(Serialize, Deserialize, Debug, Clone, PartialEq, Eq)]
+pub struct Step {
+    /// identifier exactly as passed to the provider (may be a case variant or a non-name)
+    pub id: String,
+    /// 0 = offset at instant (s, ns); 1 = instants of wall (s, ns); 2 = check_identifier(id)
+    pub kind: u8,
+    pub s: i64,
+    pub ns: i32,
+}
+#[derive(Serialize, Deserialize, Debug, Clone)]
+pub struct HistoryCase {
+    pub steps: Vec<Step>,
+}
+
+#[derive(Debug, Clone, PartialEq, Eq)]
+enum StepAns {
+    Off(Ans<(i64, Option<i64>)>),
+    Inst(Ans<Vec<i128>>),
+    Id(Ans<bool>),
+}
+fn do_step(p: &FsTzdbProvider, st: &Step) -> StepAns {
+    match st.kind {
+        0 => StepAns::Off(impl_offset(p, &st.id, ns_of(st.s, st.ns))),
+        1 => StepAns::Inst(impl_instants(p, &st.id, st.s, st.ns)),
+        _ => StepAns::Id(match guard(|| p.check_identifier(&st.id)) {
+            Ok(b) => Ans::Ok(b),
+            Err(e) => Ans::Panic(panic_loc(&e)),
+        }),
+    }
+}
+
+pub struct HistorySub;
+impl SubCheck for HistorySub {
+    type Case = HistoryCase;
+    fn name(&self) -> &'static str {
+        "history"
+    }
+    fn eval(&self, c: &HistoryCase) -> Outcome {
+        let shared = FsTzdbProvider::default();
+        let mut seen: BTreeSet<&str> = BTreeSet::new();
+        let mut seen_lower: BTreeSet<String> = BTreeSet::new();
+        let (mut hits, mut fold_hits) = (0, 0);
+        let mut out = Outcome::pass();
+        for (i, st) in c.steps.iter().enumerate() {
+            if st.kind != 2 {
+                if seen.contains(st.id.as_str()) {
+                    hits += 1;
+                } else if seen_lower.contains(&st.id.to_ascii_lowercase()) {
+                    fold_hits += 1;
+                }
+            }
+            let a = do_step(&shared, st);
+            let b = do_step(&FsTzdbProvider::default(), st);
+            if a != b && !out.failed() {
+                out = out.fail(
+                    "C15/history/answer-depends-on-earlier-queries",
+                    format!("step {i} {st:?} on a fresh provider: {b:?}"),
+                    format!("same step after {i} earlier queries: {a:?}"),
+                );
+            }
+            if st.kind != 2 {
+                seen.insert(st.id.as_str());
+                seen_lower.insert(st.id.to_ascii_lowercase());
+            }
+        }
+        if hits > 0 {
+            out = out.class("repeated-identifier");
+        }
+        if fold_hits > 0 {
+            out = out.class("identifier-differs-only-in-case-from-an-earlier-one");
+        }
+        if seen.len() > 1 {
+            out = out.class("several-identifiers");
+        }
+        out.nontrivial((hits > 0 || fold_hits > 0) && seen.len() > 1)
+    }
+}
+
+// ---------------------------------------------------------------------------------------------
+// point generation
+
+/// zones that are always part of the quick tier (structurally diverse)
+pub const FIXED_ZONES: &[&str] = &[
+    "America/New_York", "Europe/London", "Europe/Dublin", "Australia/Lord_Howe", "Pacific/Apia", "Asia/Kolkata",
+    "Asia/Kathmandu", "Africa/Casablanca", "America/Sao_Paulo", "Antarctica/Troll", "Pacific/Kiritimati",
+    "Africa/Monrovia", "America/St_Johns", "Asia/Tehran", "UTC", "Etc/GMT+12", "Etc/GMT-14", "Etc/UTC", "Factory",
+    "Europe/Berlin", "Europe/Lisbon", "Europe/Moscow", "Europe/Chisinau", "Europe/Istanbul", "Europe/Amsterdam",
+    "Africa/El_Aaiun", "Africa/Cairo", "Africa/Windhoek", "Africa/Johannesburg", "Africa/Juba", "Africa/Abidjan",
+    "America/Nuuk", "America/Scoresbysund", "America/Havana", "America/Santiago", "America/Asuncion", "America/Caracas",
+    "America/Los_Angeles", "America/Anchorage", "America/Adak", "America/Phoenix", "America/Danmarkshavn",
+    "America/Argentina/Buenos_Aires", "America/Miquelon", "America/Juneau", "America/Metlakatla", "America/Godthab",
+    "Asia/Gaza", "Asia/Jerusalem", "Asia/Beirut", "Asia/Pyongyang", "Asia/Tokyo", "Asia/Shanghai", "Asia/Manila",
+    "Asia/Kabul", "Asia/Yangon", "Asia/Colombo", "Asia/Dhaka", "Asia/Hong_Kong", "Asia/Amman",
+    "Antarctica/Casey", "Antarctica/Macquarie", "Antarctica/Vostok", "Atlantic/Azores", "Atlantic/Reykjavik",
+    "Australia/Sydney", "Australia/Eucla", "Australia/Adelaide", "Australia/Perth",
+    "Pacific/Auckland", "Pacific/Chatham", "Pacific/Easter", "Pacific/Norfolk", "Pacific/Tongatapu", "Pacific/Fiji",
+    "Pacific/Kwajalein", "Pacific/Honolulu", "Pacific/Marquesas", "Pacific/Guam", "Pacific/Bougainville",
+    "Indian/Maldives", "CET", "MET", "EST5EDT", "HST", "GB", "Eire", "Israel", "NZ-CHAT", "Cuba", "Egypt", "Iran",
+    "Navajo", "US/Eastern", "Zulu", "GMT0", "Etc/GMT+0", "W-SU", "PRC", "Singapore",
+];
+
+pub struct ZonePoints {
+    pub zone: String,
+    pub instants: Vec<(i64, i32)>,
+    pub walls: Vec<(i64, i32)>,
+}
+
+fn push_around(v: &mut Vec<(i64, i32)>, s: i64, wide: bool) {
+    // the second itself and its neighbours, sub-second instants around it (+-1 ns, +-0.5 s)
+    for (ds, ns) in [(-1, 0), (0, 0), (1, 0), (-1, 999_999_999), (0, 1), (-1, 500_000_000), (0, 500_000_000)] {
+        v.push((s + ds, ns));
+    }
+    if wide {
+        for ds in [-3600, 3600, -86400, 86400] {
+            v.push((s + ds, 0));
+        }
+    }
+}
+
+/// all points of one zone. `years` = footer years to visit densely (zones with a rule footer),
+/// `extra` = seed-chosen (fraction, delta seconds, ns) triples for points near random transitions
+pub fn zone_points(o: &Oracle, years: &[i64], extra: &[(u32, i64, i32)], uniform: &[(i64, i32)]) -> ZonePoints {
+    let mut ins: Vec<(i64, i32)> = vec![];
+    let mut walls: Vec<(i64, i32)> = vec![];
+    let f = &o.file;
+    let (lo_t, hi_t) = (t_min(), t_max());
+    // every listed transition (index i, second s, offset before a, offset after b)
+    let n = f.times.len();
+    for i in 0..n {
+        let s = f.times[i];
+        let a = if i == 0 { f.types[0].utoff } else { f.types[f.idx[i - 1]].utoff };
+        let b = f.types[f.idx[i]].utoff;
+        push_around(&mut ins, s, true);
+        if i + 1 < n {
+            let mid = s + (f.times[i + 1] - s) / 2;
+            ins.push((mid, 123_456_789));
+            walls.push((mid + b, 0));
+        }
+        wall_points(&mut walls, s, a, b);
+    }
+    // before the first transition
+    if let Some(&s0) = f.times.first() {
+        for d in [86400, 366 * 86400, 50 * 366 * 86400] {
+            ins.push((s0 - d, 0));
+            ins.push((s0 - d, 999_999_999));
+            walls.push((s0 - d, 0));
+        }
+    }
+    // fixed anchors: year 1, 1900, epoch +-, 32-bit limits, year 9999
+    for s in [
+        lo_t,
+        lo_t + 1,
+        to_days(1000, 6, 1) * 86400,
+        to_days(1800, 1, 1) * 86400,
+        to_days(1900, 1, 1) * 86400,
+        -2_147_483_649,
+        -2_147_483_648,
+        -1,
+        0,
+        1,
+        2_147_483_646,
+        2_147_483_647,
+        2_147_483_648,
+        4_294_967_295,
+        4_294_967_296,
+        to_days(2038, 1, 1) * 86400,
+        to_days(2100, 2, 28) * 86400 + 43200,
+        to_days(2400, 2, 29) * 86400 + 43200,
+        to_days(5000, 7, 1) * 86400,
+        hi_t - 1,
+        hi_t,
+    ] {
+        ins.push((s, 0));
+        ins.push((s, 999_999_999));
+        ins.push((s - 1, 500_000_000));
+        walls.push((s, 0));
+        walls.push((s, 1));
+    }
+    // the footer: rule-based transitions of the chosen years (+-1 s, +-1 h, days around: the rule
+    // names a weekday of a week of a month, so the days of that week and month end are visited)
+    if o.posix.as_ref().is_some_and(|p| p.dst.is_some()) {
+        for &y in years {
+            for (e, a, b) in o.footer_events(y) {
+                push_around(&mut ins, e, true);
+                for d in [-8, -6, -3, -2, 2, 3, 6, 8] {
+                    ins.push((e + d * 86400 + 1800, 0));
+                    walls.push((e + a + d * 86400 + 1800, 0));
+                }
+                ins.push((e + 40 * 86400, 0));
+                walls.push((e + b + 40 * 86400, 0));
+                wall_points(&mut walls, e, a, b);
+                // the rule day's local midnight and the hours before/after the change on that day
+                let local_day = (e + a).div_euclid(86400) * 86400;
+                for h in [0, 1, 5, 12, 23] {
+                    walls.push((local_day + h * 3600 + 60, 0));
+                    ins.push((local_day - a + h * 3600 + 60, 0));
+                }
+            }
+        }
+    } else {
+        for &y in years {
+            let s = to_days(y, 1, 1) * 86400;
+            for d in [0, 180 * 86400 + 7 * 3600] {
+                ins.push((s + d, 0));
+                walls.push((s + d, 500));
+            }
+        }
+    }
+    // seed-chosen points near transitions of the zone's table and uniform ones
+    let tab = &o.base.trans;
+    for &(frac, delta, ns) in extra {
+        if tab.is_empty() {
+            break;
+        }
+        let i = (frac as u64 * tab.len() as u64 >> 32) as usize;
+        let s = tab[i].0 + delta;
+        ins.push((s, ns));
+        walls.push((s + tab[i].1, ns));
+    }
+    for &(s, ns) in uniform {
+        ins.push((s, ns));
+        walls.push((s, ns));
+    }
+    let clamp = |v: &mut Vec<(i64, i32)>, margin: i64| {
+        v.retain(|p| p.0 >= lo_t + margin && p.0 <= hi_t - margin);
+        v.sort();
+        v.dedup();
+    };
+    clamp(&mut ins, 0);
+    // walls: keep two days inside the domain so that every candidate instant is a domain instant
+    clamp(&mut walls, 2 * 86400);
+    ZonePoints { zone: o.name.clone(), instants: ins, walls }
+}
+
+/// walls around the transition at `s` from offset a to offset b: the skipped/repeated stretch is
+/// [s + min(a,b), s + max(a,b)) on the local line
+fn wall_points(walls: &mut Vec<(i64, i32)>, s: i64, a: i64, b: i64) {
+    let (lo, hi) = (s + a.min(b), s + a.max(b));
+    for (w, ns) in [
+        (lo - 3600, 0),
+        (lo - 1, 0),
+        (lo - 1, 999_999_999),
+        (lo, 0),
+        (lo, 1),
+        (lo + 1, 0),
+        (lo + (hi - lo) / 2, 0),
+        (lo + (hi - lo) / 2, 500_000_000),
+        (hi - 1, 0),
+        (hi - 1, 999_999_999),
+        (hi, 0),
+        (hi, 1),
+        (hi + 1, 0),
+        (hi + 3600, 0),
+        (s, 0),
+    ] {
+        walls.push((w, ns));
+    }
+}
+
+struct Plan {
+    zones: Vec<ZonePoints>,
+    /// prefix sums over instants / walls
+    ins_prefix: Vec<u64>,
+    wall_prefix: Vec<u64>,
+}
+impl Plan {
+    fn new(zones: Vec<ZonePoints>) -> Plan {
+        let mut ins_prefix = vec![0u64];
+        let mut wall_prefix = vec![0u64];
+        for z in &zones {
+            ins_prefix.push(ins_prefix.last().unwrap() + z.instants.len() as u64);
+            wall_prefix.push(wall_prefix.last().unwrap() + z.walls.len() as u64);
+        }
+        Plan { zones, ins_prefix, wall_prefix }
+    }
+    fn locate(prefix: &[u64], i: u64) -> (usize, usize) {
+        let z = prefix.partition_point(|p| *p <= i) - 1;
+        (z, (i - prefix[z]) as usize)
+    }
+    fn offset_case(&self, i: u64) -> OffsetCase {
+        let (z, k) = Plan::locate(&self.ins_prefix, i);
+        let (s, ns) = self.zones[z].instants[k];
+        OffsetCase { zone: self.zones[z].zone.clone(), s, ns }
+    }
+    fn wall_case(&self, i: u64, via_core_every: u64) -> WallCase {
+        let (z, k) = Plan::locate(&self.wall_prefix, i);
+        let (s, ns) = self.zones[z].walls[k];
+        WallCase { zone: self.zones[z].zone.clone(), s, ns, via_core: i % via_core_every == 0 }
+    }
+}
+
+// ---------------------------------------------------------------------------------------------
+// identifiers: case variants and near misses
+
+fn ident_cases(seed_bits: &[u64]) -> Vec<String> {
+    let d = db();
+    let mut v: Vec<String> = vec![];
+    for (k, n) in d.names.iter().enumerate() {
+        let bits = seed_bits[k % seed_bits.len()];
+        v.push(n.clone());
+        v.push(n.to_ascii_lowercase());
+        v.push(n.to_ascii_uppercase());
+        // seed-chosen mixed case
+        v.push(
+            n.chars()
+                .enumerate()
+                .map(|(i, c)| if bits >> (i % 64) & 1 == 1 { c.to_ascii_uppercase() } else { c.to_ascii_lowercase() })
+                .collect(),
+        );
+        // near misses
+        let b: Vec<char> = n.chars().collect();
+        let pos = (bits >> 8) as usize % b.len();
+        let mut del = b.clone();
+        del.remove(pos);
+        v.push(del.iter().collect());
+        let mut sub = b.clone();
+        sub[pos] = if sub[pos] == 'x' { 'y' } else { 'x' };
+        v.push(sub.iter().collect());
+        let mut ins = b.clone();
+        ins.insert(pos, 'q');
+        v.push(ins.iter().collect());
+        if b.len() >= 2 {
+            let p2 = pos.min(b.len() - 2);
+            let mut sw = b.clone();
+            sw.swap(p2, p2 + 1);
+            v.push(sw.iter().collect());
+        }
+        v.push(format!("{n}x"));
+        v.push(format!("{n}/"));
+        v.push(format!("/{n}"));
+        v.push(format!(" {n}"));
+        v.push(format!("{n} "));
+        v.push(format!("{n}\0"));
+        v.push(format!("posix/{n}"));
+        v.push(format!("right/{n}"));
+        v.push(n[..n.len() - 1].to_string());
+        v.push(n[1..].to_string());
+        if n.contains('/') {
+            v.push(n.replace('/', "\\"));
+            v.push(n.replace('/', "//"));
+            v.push(n.rsplit('/').next().unwrap().to_string());
+            v.push(n.split('/').next().unwrap().to_string());
+        }
+        if n.contains('_') {
+            v.push(n.replace('_', " "));
+            v.push(n.replace('_', "-"));
+            v.push(n.replace('_', ""));
+        }
+        // non-ASCII look-alikes must not fold: Kelvin sign for k/K, long s for s/S, dotless/dotted i
+        for (a, u) in [('k', '\u{212A}'), ('K', '\u{212A}'), ('s', '\u{17F}'), ('S', '\u{17F}'), ('i', '\u{131}'), ('I', '\u{130}')] {
+            if n.contains(a) {
+                v.push(n.replacen(a, &u.to_string(), 1));
+            }
+        }
+    }
+    // things that exist in the zoneinfo directory (or around it) but are not Zone/Link names
+    for s in [
+        "", " ", "/", ".", "..", "localtime", "posixrules", "posix", "right", "posix/UTC", "right/UTC", "posix/Europe/London",
+        "right/America/New_York", "tzdata.zi", "zone.tab", "zone1970.tab", "iso3166.tab", "leapseconds", "leap-seconds.list",
+        "Etc", "Etc/", "America", "America/", "America/Argentina", "America/Indiana", "Europe", "../UTC", "./UTC", "Etc/../UTC",
+        "Etc/GMT+13", "Etc/GMT-15", "Etc/GMT+1:00", "GMT+1", "GMT-1", "UTC+1", "UTC0", "UT", "Z", "z", "+00:00", "-05:00", "+0000",
+        "EST", "MST", "HST", "EST5EDT", "CST6CDT", "MST7MDT", "PST8PDT", "WET", "CET", "MET", "EET", "PST", "CST", "EDT", "BST", "IST", "AEST",
+        "Europe/Kyiv", "Europe/Kiev", "America/Ciudad_Juarez", "Asia/Calcutta", "Asia/Kolkata", "US/Pacific-New", "Asia/Riyadh87",
+        "Mideast/Riyadh87", "SystemV/EST5EDT", "America/Nuuk", "Pacific/Kanton", "Pacific/Enderbury", "Antarctica/Troll", "Canada/East-Saskatchewan",
+        "Europe/Belfast", "Atlantic/Jan_Mayen", "Asia/Hanoi", "Europe/Uzhgorod", "Factory", "factory", "FACTORY",
+        "utc", "Utc", "uTc", "etc/utc", "ETC/UTC", "Etc/Utc", "gmt", "Gmt", "etc/gmt+12", "ETC/GMT+12",
+    ] {
+        v.push(s.to_string());
+    }
+    v
+}
+
+// ---------------------------------------------------------------------------------------------
+// history strategy
+
+fn history_strategy() -> BoxedStrategy<HistoryCase> {
+    let d = db();
+    let n = d.names.len();
+    // a pool of few identifiers so that repeats are frequent: 1-3 names, each in its canonical
+    // spelling plus a subset of {lower case, upper case, a non-name}
+    let base = (0..n, 0u8..8).prop_map(move |(i, mask)| {
+        let name = &db().names[i];
+        let mut v = vec![name.clone()];
+        if mask & 1 != 0 {
+            v.push(name.to_ascii_lowercase());
+        }
+        if mask & 2 != 0 {
+            v.push(name.to_ascii_uppercase());
+        }
+        if mask & 4 != 0 {
+            v.push(format!("{name}x"));
+        }
+        v
+    });
+    let pool = proptest::collection::vec(base, 1..=3).prop_map(|v| v.into_iter().flatten().collect::<Vec<String>>());
+    let step = (
+        any::<prop::sample::Index>(),
+        0u8..3,
+        any::<u32>(),
+        -90_000i64..90_000,
+        prop_oneof![Just(0i32), 0i32..1_000_000_000],
+        any::<bool>(),
+        t_min() + 200_000..t_max() - 200_000,
+    );
+    (pool, proptest::collection::vec(step, 2..=16))
+        .prop_map(|(pool, steps)| {
+            let steps = steps
+                .into_iter()
+                .map(|(pi, kind, frac, delta, ns, uniform, ut)| {
+                    let id = pi.get(&pool).clone();
+                    // the canonical-case name decides where the interesting instants are
+                    let canon = db().names.iter().find(|n| n.eq_ignore_ascii_case(&id));
+                    let s = match canon.and_then(|c| oracle(c)) {
+                        Some(o) if !uniform && !o.base.trans.is_empty() => {
+                            let tab = &o.base.trans;
+                            let i = (frac as u64 * tab.len() as u64 >> 32) as usize;
+                            tab[i].0 + delta + if kind == 1 { tab[i].1 } else { 0 }
+                        }
+                        _ => ut,
+                    };
+                    Step { id, kind, s, ns }
+                })
+                .collect();
+            HistoryCase { steps }
+        })
+        .boxed()
+}
+
+// ---------------------------------------------------------------------------------------------
+// run
+
+fn footer_years(tier: Tier, seeded: &[i64]) -> Vec<i64> {
+    let mut y: Vec<i64> = match tier {
+        Tier::Quick => (2037..=2070).chain((2071..=2500).step_by(11)).collect(),
+        Tier::Thorough => (2037..=2500).collect(),
+    };
+    y.extend([2099, 2100, 2101, 2399, 2400, 2401, 2500, 3000, 4000, 9998, 9999]);
+    y.extend(seeded.iter().copied());
+    y.sort();
+    y.dedup();
+    y
+}
+
+pub fn run(ctx: &mut Ctx) {
+    let d = db();
+    ctx.rule = "offset/wall: for every chosen zone every listed transition second s: s-1, s, s+1, s*1e9+-1 ns, s+-0.5 s, s+-1 h, s+-1 d, midpoints; before the first transition; fixed anchors (year 1, 1800, 1900, +-2^31, 2^32, 2038, 2100, 2400, 5000, 9999); rule-based footer transitions of the chosen years (quick: 2037-2070, every 11th year to 2500, century turns, seed-chosen years to 9999; thorough: every year 2037-2500 + 200 seed-chosen later years) with the same pattern plus the days of the rule's week and the hours of the rule's day; seed-chosen points near random transitions and uniform over years 1-9999; walls = the edges, middle and outside of every skipped/repeated stretch [s+min(a,b), s+max(a,b)) (+-1 s, +-1 ns) and the images of the instants. quick: ~100 fixed structurally diverse zones + seed-chosen rest to 120; thorough: all 598 names. non-trivial (offset, wall) = within 1 h of a transition, or before the first / after the last listed transition, or negative epoch, or the nearest transition is a negative-DST one or an offset change between two non-DST types, or wall inside a gap/overlap. ident: every name in 4 case variants + ~20 near misses each + directory entries that are not names; non-trivial = not byte-equal to a name. history: generated sequences of 2-16 queries over a pool of 1-3 names in up to 4 spellings (canonical, lower, upper, non-name) against one provider vs a fresh provider per query; non-trivial = some identifier repeats (exactly or up to case) and more than one identifier is used.".into();
+    ctx.assumptions = vec![
+        format!("the data are the TZif files of {ZONEDIR} (tzdata {}), read independently by props::c15::tzif (RFC 8536 3.2: type 0 before the first transition, the transition second belongs to the new type, footer after the last transition)", d.version),
+        "names = Zone and Link names of tzdata.zi (597 judged; `Factory` executed but unjudged: a Zone line, but a placeholder that is not in the normaliser's source files and that ECMA-402 implementations omit); posix/, right/, posixrules, localtime and the .tab files of the directory are not names and must be rejected".into(),
+        "IsoDateTime values are built through public API (Default + public fields + IsoTime::new + IsoDateTime::new); every 16th wall case is observed through PlainDateTime::to_zoned_date_time_with_provider with a recording wrapper instead".into(),
+        "candidate instants are compared as a sorted set (their order is C13's concern); of TimeZoneOffset only `.offset` is compared (transition_epoch is not part of the statement)".into(),
+        "offset and wall reuse one provider per (worker thread, zone) because the crate reads a zone file with ~3500 one-byte reads; a replayed case starts from a fresh provider; independence from earlier queries is decided by the history sub-check".into(),
+    ];
+    for p in &d.problems {
+        ctx.note(format!("data remark: {p}"));
+    }
+    match tzif::self_test() {
+        Ok(n) => ctx.note(format!("tzif self-test: ok ({n} hand-computed vectors)")),
+        Err(e) => {
+            println!("INCONCLUSIVE property=C15 tzif self-test failed: {e}");
+            std::process::exit(2);
+        }
+    }
+    if d.oracles.len() != d.names.len() {
+        println!("INCONCLUSIVE property=C15 {} of {} zone files unreadable by the oracle: {:?}", d.names.len() - d.oracles.len(), d.names.len(), d.problems);
+        std::process::exit(2);
+    }
+    let tier = ctx.tier;
+
+    // ---- zone choice
+    let seed = ctx.sub_seed("plan", 0);
+    let zones: Vec<String> = match tier {
+        Tier::Thorough => d.names.clone(),
+        Tier::Quick => {
+            let mut z: Vec<String> = FIXED_ZONES.iter().filter(|n| d.oracles.contains_key(**n)).map(|s| s.to_string()).collect();
+            let picks = sample_strategy(&(0..d.names.len()), seed, 400);
+            for i in picks {
+                if z.len() >= 120 {
+                    break;
+                }
+                if !z.contains(&d.names[i]) {
+                    z.push(d.names[i].clone());
+                }
+            }
+            z
+        }
+    };
+    let seeded_years: Vec<i64> = sample_strategy(&(2501i64..=9999), seed ^ 1, tier.pick(12, 200) as usize);
+    let years = footer_years(tier, &seeded_years);
+    let n_extra = tier.pick(150, 600) as usize;
+    let plan_zones: Vec<ZonePoints> = zones
+        .iter()
+        .enumerate()
+        .map(|(k, z)| {
+            let o = oracle(z).unwrap();
+            let extra = sample_strategy(&(any::<u32>(), -100_000i64..100_000, prop_oneof![Just(0i32), 0i32..1_000_000_000]), seed ^ (k as u64 + 2) << 8, n_extra);
+            let uniform = sample_strategy(&(t_min()..=t_max(), prop_oneof![Just(0i32), 0i32..1_000_000_000]), seed ^ (k as u64 + 2) << 8 ^ 7, n_extra / 3);
+            zone_points(&o, &years, &extra, &uniform)
+        })
+        .collect();
+    let plan = Plan::new(plan_zones);
+    let n_ins = *plan.ins_prefix.last().unwrap();
+    let n_wall = *plan.wall_prefix.last().unwrap();
+    ctx.extra.insert("zones_visited".into(), json!(zones.len()));
+    ctx.extra.insert("footer_years_visited".into(), json!(years.len()));
+    ctx.extra.insert("tzdata_version".into(), json!(d.version));
+    ctx.extra.insert(
+        "defect_models".into(),
+        json!("a failing offset/wall case gets a narrow signature only if the observed answer equals the correct lookup with a set of named defects injected (props/c15/model.rs: smallest explaining set, named after its highest-priority member); everything else is C15/<sub>/mismatch"),
+    );
+
+    ctx.run_enum(&OffsetSub, n_ins, &|i| plan.offset_case(i), false);
+    ctx.run_enum(&WallSub, n_wall, &|i| plan.wall_case(i, 16), false);
+
+    // ---- identifiers
+    let bits = sample_strategy(&any::<u64>(), seed ^ 3, 97);
+    let ids = ident_cases(&bits);
+    ctx.run_enum(&IdentSub, ids.len() as u64, &|i| IdentCase { s: ids[i as usize].clone() }, false);
+
+    // ---- history
+    ctx.run_prop(&HistorySub, &history_strategy, tier.pick(4_000, 60_000));
+
+    // ---- generator self-check: every class the property names must have been reached
+    let floors: [(&str, u64); 14] = [
+        ("before-first-transition", 500),
+        ("after-last-listed", 500),
+        ("inside-table", 500),
+        ("at-transition-second+-1", 500),
+        ("within-1h-of-transition", 500),
+        ("negative-epoch", 500),
+        ("year>=2038", 500),
+        ("sub-second", 500),
+        ("nearest-transition-negative-dst-or-nondst-change", 500),
+        ("wall-in-gap", 200),
+        ("wall-in-overlap", 200),
+        ("case-variant", 500),
+        ("repeated-identifier", 200),
+        ("identifier-differs-only-in-case-from-an-earlier-one", 100),
+    ];
+    for (class, floor) in floors {
+        let n = ctx.stats.classes.get(class).copied().unwrap_or(0);
+        // (a lane that found a violation stops counting, so floors are only meaningful on a clean run)
+        if n < floor && ctx.violations.is_empty() {
+            println!("INCONCLUSIVE property=C15 generator starved: class '{class}' reached {n} times (floor {floor})");
+            std::process::exit(2);
+        }
+    }
+
+    // ---- development aid: cross-check of the oracle against CPython zoneinfo (never part of the verdict)
+    if std::env::var("VERIF_C15_PYCHECK").is_ok() {
+        let msg = python_crosscheck(&plan);
+        println!("C15 oracle-of-the-oracle: {msg}");
+        ctx.note(format!("oracle cross-check vs CPython zoneinfo: {msg}"));
+    }
+}
+
+pub fn replay(ctx: &mut Ctx, sub: &str, case: &Value) -> bool {
+    match sub {
+        "offset" => ctx.replay_case(&OffsetSub, case),
+        "wall" => ctx.replay_case(&WallSub, case),
+        "ident" => ctx.replay_case(&IdentSub, case),
+        "history" => ctx.replay_case(&HistorySub, case),
+        _ => false,
+    }
+}
+
+// ---------------------------------------------------------------------------------------------
+// development-time cross-check of `tzif` against CPython's zoneinfo (same files, other reader)
+
+const PY: &str = r#"
+import sys, json
+from datetime import datetime, timedelta, timezone
+from zoneinfo import ZoneInfo
+EPOCH = datetime(1970, 1, 1, tzinfo=timezone.utc)
+NAIVE = datetime(1970, 1, 1)
+bad = 0; n_off = 0; n_wall = 0; shown = 0
+for line in open(sys.argv[1]):
+    rec = json.loads(line)
+    z = ZoneInfo(rec["zone"])
+    for s, off in rec["offsets"]:
+        try:
+            dt = (EPOCH + timedelta(seconds=s)).astimezone(z)
+            got = int(dt.utcoffset().total_seconds())
+        except OverflowError:
+            continue
+        n_off += 1
+        if got != off:
+            bad += 1
+            if shown < 20:
+                shown += 1; print("OFFSET", rec["zone"], s, "oracle", off, "cpython", got)
+    for w, inst in rec["walls"]:
+        try:
+            naive = NAIVE + timedelta(seconds=w)
+            got = set()
+            for fold in (0, 1):
+                dt = naive.replace(tzinfo=z, fold=fold)
+                cand = w - int(dt.utcoffset().total_seconds())
+                back = (EPOCH + timedelta(seconds=cand)).astimezone(z).replace(tzinfo=None)
+                if back == naive:
+                    got.add(cand)
+        except OverflowError:
+            continue
+        n_wall += 1
+        if sorted(got) != inst:
+            bad += 1
+            if shown < 20:
+                shown += 1; print("WALL", rec["zone"], w, "oracle", inst, "cpython", sorted(got))
+print("RESULT offsets=%d walls=%d mismatches=%d" % (n_off, n_wall, bad))
+"#;
+
+fn python_crosscheck(plan: &Plan) -> String {
+    use std::io::Write;
+    let dir = std::env::temp_dir().join(format!("c15-pycheck-{}", std::process::id()));
+    let _ = std::fs::create_dir_all(&dir);
+    let data = dir.join("samples.jsonl");
+    let script = dir.join("check.py");
+    let res = (|| -> Result<String, String> {
+        let mut f = std::io::BufWriter::new(std::fs::File::create(&data).map_err(|e| e.to_string())?);
+        for z in &plan.zones {
+            let o = oracle(&z.zone).unwrap();
+            // whole seconds only (datetime has microseconds; the sub-second handling is the provider's, not the oracle's)
+            let offs: Vec<(i64, i64)> = z.instants.iter().filter(|p| p.1 == 0).map(|p| (p.0, o.offset_at(ns_of(p.0, 0)))).collect();
+            let walls: Vec<(i64, Vec<i64>)> =
+                z.walls.iter().filter(|p| p.1 == 0).map(|p| (p.0, o.instants(ns_of(p.0, 0)).into_iter().map(|t| (t / S) as i64).collect())).collect();
+            writeln!(f, "{}", json!({"zone": z.zone, "offsets": offs, "walls": walls})).map_err(|e| e.to_string())?;
+        }
+        f.flush().map_err(|e| e.to_string())?;
+        std::fs::write(&script, PY).map_err(|e| e.to_string())?;
+        let out = std::process::Command::new("python3").arg(&script).arg(&data).output().map_err(|e| format!("python3 not runnable: {e}"))?;
+        let text = String::from_utf8_lossy(&out.stdout).into_owned() + &String::from_utf8_lossy(&out.stderr);
+        Ok(text.trim().replace('\n', " | "))
+    })();
+    let _ = std::fs::remove_dir_all(&dir);
+    res.unwrap_or_else(|e| format!("not run: {e}"))
 }
